@@ -107,6 +107,9 @@ def projIRCheck (prop : String) (p : PProject) (impl : Json) : Except String Pro
     | "C04" => pure (checkC04 d outJ)
     | "C06" => pure (checkC06 d outJ)
     | "C02" | "C03" | "C05" | "C12" => pure (checkRouter prop d outJ)
+    | "C08" => pure (checkC08 d outJ)
+    | "C11" => pure (checkC11 d outJ)
+    | "C14" => pure (checkC14 d outJ)
     | q => throw s!"mode proj: no IR-level check for property {q}"
   let rd := reduceCheck p impl
   -- C04: with enforceSecurityOnAllRoutes an ACCEPTED project has no route (hidden ones included) without security
@@ -120,7 +123,7 @@ def projIRCheck (prop : String) (p : PProject) (impl : Json) : Except String Pro
            notes := rd.notes ++ irOut.notes ++ (if p.enforce then ["d:enforce-on"] else []) }
 
 def projHandler3 : Handler := fun prop input impl => do
-  if !(["C01", "C04", "C06", "C02", "C03", "C05", "C12"].contains prop) then projHandler2 prop input impl else
+  if !(["C01", "C04", "C06", "C02", "C03", "C05", "C12", "C08", "C11", "C14"].contains prop) then projHandler2 prop input impl else
   let p := parseProject input
   let out ← projIRCheck prop p (impl.getD Json.null)
   let tag (pre : String) (f : String) :=
